@@ -283,7 +283,10 @@ def nat_strize(h):
         got = h.run(lambda: strize(v))
         h.check(got[0] == 'ok' and got[1] == ref(v), D + 'to_sql.py::strize', repr(v), ref(v), got[:2])
         if got[0] == 'ok':
-            h.check(json.loads(jsonize(got[1])) == json.loads(json.dumps(ref(v))), D + 'to_sql.py::jsonize', repr(v), None, None)
+            # jsonize: the JSON text of the value, for EVERY value (an empty list / dict is a value, not a missing one)
+            jz = h.run(lambda: jsonize(got[1]))
+            h.check(jz[0] == 'ok' and isinstance(jz[1], str) and json.loads(jz[1]) == json.loads(json.dumps(ref(v))), D + 'to_sql.py::jsonize',
+                    repr(v), json.dumps(ref(v)), jz[:2])
 
 
 def nat_histories(h):
